@@ -201,8 +201,69 @@ def add_stats(ck, stats, prefix=""):
     return per_op
 
 
+CHOL_CFG = "SPECIFICATION Spec\nCONSTANTS\n  OpsLevel = \"all\"\n  Limit = 20000\n"
+VEC_CFG = "SPECIFICATION Spec\nCONSTANTS\n  MaxLen = %d\n"
+CHOL_FUNCS = ["CholeskyDense::getLowerTriangle", "CholeskyDense::getUpperTriangleInverse", "ACholesky::LX", "ACholesky::LtX",
+              "ACholesky::InvLX", "ACholesky::InvLtX", "ACholesky::solve", "ACholesky::solveMatrix",
+              "CholeskyDense::computeLogDeterminant", "CholeskySparse::computeLogDeterminant", "CholeskyDense::matProductInPlace",
+              "CholeskyDense::normMatInPlace", "CholeskySparse::stdev", "MatrixSquareGeneral::decomposeLU",
+              "MatrixSquareSymmetric::computeEigen", "MatrixSquareSymmetric::getEigenValues",
+              "MatrixSquareSymmetric::computeGeneralizedEigen", "MatrixSquareSymmetric::computeGeneralizedInverse"]
+VEC_FUNCS = ["VectorNumT<double>::sum", "VectorNumT<double>::minimum", "VectorNumT<double>::maximum", "VectorNumT<double>::mean",
+             "VectorNumT<double>::norm", "VectorNumT<double>::innerProduct", "VectorNumT<double>::add(vector)",
+             "VectorNumT<double>::divide(scalar)", "VH::sort", "VH::orderRanks", "VH::sortRanks", "VH::cumsum", "VH::sequence(int)",
+             "VH::minimum", "VH::maximum", "VH::mean", "VH::variance", "VH::median", "VH::unique", "VH::filter", "VH::complement"]
+
+
+def case_phase(ck, exe, mode, module, cfgtext, tag, harness_opts=()):
+    cfg = os.path.join(ck.work, tag + ".cfg")
+    open(cfg, "w").write(cfgtext)
+    cases_path = os.path.join(ck.work, tag + ".json")
+    t0 = time.time()
+    doc = vlib.tlc_emit_json(module, cfg, cases_path)
+    ncases = len(doc) if isinstance(doc, list) else len(doc["cases"]) + len(doc["seqs"])
+    out = os.path.join(ck.work, tag + ".out")
+    vlib.run_harness(exe, [mode, cases_path, out] + list(harness_opts), timeout=3000)
+    stats = {}
+    nrec = collect(ck, [out], stats)
+    log("[C11] %s: %d cases emitted by TLC (%s), %d checks on the real classes, %d disagreement records (%.1fs)" %
+        (tag, ncases, module, stats.get("case_checks", 0), nrec, time.time() - t0))
+    if stats.get("cases", 0) != ncases:
+        raise Broken("%s: %d cases executed for %d emitted" % (tag, stats.get("cases", 0), ncases))
+    if mode == "chol":
+        c = doc[0]
+        ck.sample({"case": "cholesky", "L": c["L"], "A": c["A"], "y": c["y"], "expected_L_y": c["Ly"], "expected_det": c["det"]})
+    else:
+        c = doc["cases"][len(doc["cases"]) // 2]
+        ck.sample({"case": "vector helpers", "u": c["u"], "w": c["w"], "expected_sortasc": c["sortasc"], "expected_orderdesc": c["orderdesc"],
+                   "expected_variance_num_den": c["var1"]})
+    return ncases, stats
+
+
 def run_cases(ck, exe, tier):
-    return 0
+    quick = tier == "quick"
+    total = 0
+    n, st = case_phase(ck, exe, "chol", "MatrixAlgChol", CHOL_CFG, "chol")
+    total += n
+    ck.cov["case_checks"] = ck.cov.get("case_checks", 0) + st.get("case_checks", 0)
+    ck.cov["factorisation_cases"] = {k[6:]: v for k, v in st.items() if k.startswith("cases_")}
+    missing = [f for f in CHOL_FUNCS if st.get("fn:" + f, 0) == 0]
+    if missing:
+        raise Broken("factorisation functions never executed (vacuous): %s" % missing)
+    n, st = case_phase(ck, exe, "vec", "MatrixAlgVec", VEC_CFG % (3 if quick else 4), "vec")
+    total += n
+    ck.cov["case_checks"] += st.get("case_checks", 0)
+    ck.cov["vector_helper_cases"] = n
+    ck.cov["vector_helper_functions"] = len([k for k in st if k.startswith("fn:")])
+    missing = [f for f in VEC_FUNCS if st.get("fn:" + f, 0) == 0]
+    if missing:
+        raise Broken("vector helpers never executed (vacuous): %s" % missing)
+    if not quick:
+        for th in (1, 4, 16):
+            n, st = case_phase(ck, exe, "chol", "MatrixAlgChol", CHOL_CFG, "chol_thr%d" % th, ["threads=%d" % th, "infl=%d" % 32])
+            total += n
+            ck.cov["case_checks"] += st.get("case_checks", 0)
+    return total
 
 
 ALL_OPS = ["SetValue", "SetSym", "SetRow", "SetCol", "SetDiag", "SetDiagConst", "TransposeInPlace", "AddScalar",
